@@ -276,10 +276,20 @@ class ClassDiagram:
         """
         wrapped_cls = self.get_wrapped_class(cls)
         edge_filter_func = lambda edge: isinstance(edge, relation_type)
+        # adj() keeps one edge per neighbour: look at every incoming and outgoing edge
+        index = wrapped_cls.index
+        neighbor_indices = [
+            source
+            for source, _, e in self._dependency_graph.in_edges(index)
+            if edge_filter_func(e)
+        ] + [
+            target
+            for _, target, e in self._dependency_graph.out_edges(index)
+            if edge_filter_func(e)
+        ]
         filtered_neighbors = [
             self._dependency_graph.get_node_data(n)
-            for n, e in self._dependency_graph.adj(wrapped_cls.index).items()
-            if edge_filter_func(e)
+            for n in dict.fromkeys(neighbor_indices)
         ]
         return tuple(filtered_neighbors)
 
@@ -337,8 +347,8 @@ class ClassDiagram:
         Build parent map from inheritance edges: child_idx -> set(parent_idx)
         """
         parent_map: dict[int, set[int]] = {}
-        for u, v in self._dependency_graph.edge_list():
-            rel = self._dependency_graph.get_edge_data(u, v)
+        # every edge with its own data: two classes can be connected by several edges (a field typed with a subclass)
+        for u, v, rel in self._dependency_graph.weighted_edge_list():
             if isinstance(rel, Inheritance):
                 parent_map.setdefault(v, set()).add(u)
         return parent_map
@@ -376,8 +386,7 @@ class ClassDiagram:
             values are sets of tuples representing association keys.
         """
         assoc_keys_by_source = {}
-        for u, v in self._dependency_graph.edge_list():
-            rel = self._dependency_graph.get_edge_data(u, v)
+        for u, v, rel in self._dependency_graph.weighted_edge_list():
             if isinstance(rel, Association):
                 assoc_keys_by_source.setdefault(u, set()).add(
                     rel.get_key(include_field_name)
@@ -403,9 +412,9 @@ class ClassDiagram:
         assoc_keys_by_source = result.get_assoc_keys_by_source(include_field_name)
 
         # Mark redundant descendant association edges for removal
-        edges_to_remove: list[tuple[int, int]] = []
-        for u, v in g.edge_list():
-            rel = g.get_edge_data(u, v)
+        # by edge index: several association edges can connect the same two classes
+        edges_to_remove: list[int] = []
+        for edge_index, (u, v, rel) in g.edge_index_map().items():
             if not isinstance(rel, Association):
                 continue
 
@@ -416,10 +425,11 @@ class ClassDiagram:
                 inherited_keys |= assoc_keys_by_source.get(anc, set())
 
             if key in inherited_keys:
-                edges_to_remove.append((u, v))
+                edges_to_remove.append(edge_index)
 
         # Remove redundant edges
-        result.remove_edges(edges_to_remove)
+        for edge_index in edges_to_remove:
+            g.remove_edge_from_index(edge_index)
 
         return result
 
